@@ -8,7 +8,7 @@ from py2v import fail
 
 SKELETON_THR = '''
 with self.__jobs_lock:
-    scheduler_headings = "{0}, {1}, {2}, {3}\\n\\n".format(*self.__headings())
+    scheduler_headings = "HOLE"
     c_align = "HOLE"
     c_width = "HOLE"
     c_name = "HOLE"
@@ -24,7 +24,7 @@ with self.__jobs_lock:
     return scheduler_headings + job_table
 '''
 SKELETON_AIO = '''
-scheduler_headings = "{0}, {1}\\n\\n".format(*self.__headings())
+scheduler_headings = "HOLE"
 c_align = "HOLE"
 c_width = "HOLE"
 c_name = "HOLE"
@@ -55,7 +55,7 @@ class Holes(ast.NodeTransformer):
     def visit_Assign(self, node):
         if len(node.targets) == 1 and isinstance(node.targets[0], ast.Name):
             name = node.targets[0].id
-            if name in ("c_align", "c_width", "c_name", "entries") or (name == "form" and not isinstance(node.value, ast.ListComp)):
+            if name in ("c_align", "c_width", "c_name", "entries", "scheduler_headings") or (name == "form" and not isinstance(node.value, ast.ListComp)):
                 self.found[name] = node.value
                 return ast.copy_location(ast.Assign(targets=node.targets, value=ast.Constant(value="HOLE")), node)
         return self.generic_visit(node)
@@ -102,7 +102,7 @@ def translate(tree, skeleton, prefix, weight_ok):
     if ast.dump(ast.Module(body=holed, type_ignores=[])) != ast.dump(ast.parse(skeleton)):
         fail(fd, "Scheduler.__str__ differs from the skeleton the translator knows")
     f = h.found
-    if set(f) != {"c_align", "c_width", "c_name", "form", "entries"}:
+    if set(f) != {"c_align", "c_width", "c_name", "form", "entries", "scheduler_headings"}:
         fail(fd, "table constants")
 
     def consts(node, kind):
@@ -125,9 +125,87 @@ def translate(tree, skeleton, prefix, weight_ok):
     if not isinstance(ent, ast.Tuple) or len(ent.elts) != len(width):
         fail(ent, "one entry per column")
     cells = [cell(e, weight_ok) for e in ent.elts]
+    heading = headings(tree, f["scheduler_headings"], prefix)
     cols = "; ".join("(%s, %d%%nat)" % ("true" if al == "<" else "false", w) for al, w in zip(align, width))
-    return ("Definition %s_cols : list (bool * nat) := [%s].\n"
+    return (heading + "Definition %s_cols : list (bool * nat) := [%s].\n"
             "Definition %s_names : list pystr := [%s].\n"
             "Definition %s_tz_drop : nat * nat := (%d, %d)%%nat.\n"
             "Definition %s_entries (row : list pystr) (weight : pystr) : list pystr :=\n  let cols := %s_cols in\n  [%s].\n"
             % (prefix, cols, prefix, "; ".join(codes(n) for n in name), prefix, a, b, prefix, prefix, ";\n   ".join(cells)))
+
+
+HEADINGS_THR = """with self.__jobs_lock:
+    headings = 'HOLE'
+    return headings"""
+HEADINGS_AIO = """headings = 'HOLE'
+return headings"""
+
+
+def headings(tree, first_line, prefix):
+    """Scheduler.__headings (a list of strings) and the format string of the first line of __str__"""
+    from py2v_methods import find_method
+    from py2v_strrow import fmt_pieces
+    fd = find_method(tree, "Scheduler", "__headings")
+    h = Holes2()
+    holed = [h.visit(b) for b in ast.parse(ast.unparse(ast.Module(body=fd.body, type_ignores=[]))).body]
+    want = HEADINGS_THR if prefix == "thr" else HEADINGS_AIO
+    if ast.dump(ast.Module(body=holed, type_ignores=[])) != ast.dump(ast.parse(want)) or not isinstance(h.value, ast.List):
+        fail(fd, "Scheduler.__headings differs from the shape the translator knows")
+    jobs_attr = "self.__jobs" if prefix == "thr" else "self._jobs"
+
+    def field(e):
+        src = ast.unparse(e)
+        if src == "self.__tz_str":
+            return "opt_str tz"              # f"{None}" is "None"
+        if src == "len(%s)" % jobs_attr:
+            return "dec njobs"
+        if prefix == "thr" and isinstance(e, ast.IfExp) and ast.unparse(e.test) == "self.__max_exec" \
+                and ast.unparse(e.body) == "self.__max_exec" and isinstance(e.orelse, ast.Call) \
+                and ast.unparse(e.orelse.func) == "float" and len(e.orelse.args) == 1 \
+                and isinstance(e.orelse.args[0], ast.Constant) and e.orelse.args[0].value in ("inf", "Infinity", "+inf"):
+            return "(if negb (mx =? 0) then dec_int mx else %s)" % codes("inf")      # str(float('inf')) == 'inf'
+        if prefix == "thr" and src == "getattr(self.__priority_function, '__name__', type(self.__priority_function).__name__)":
+            return "pname"
+        fail(e, "heading field")
+
+    def element(e):
+        if isinstance(e, ast.JoinedStr):
+            parts = []
+            for v in e.values:
+                if isinstance(v, ast.Constant) and isinstance(v.value, str):
+                    parts.append(codes(v.value))
+                elif isinstance(v, ast.FormattedValue) and v.conversion == -1 and v.format_spec is None:
+                    parts.append(field(v.value))
+                else:
+                    fail(v, "heading f-string part")
+            return " ++ ".join(parts) or "[]"
+        if isinstance(e, ast.Call) and isinstance(e.func, ast.Attribute) and e.func.attr == "format" and not e.keywords \
+                and isinstance(e.func.value, ast.Constant) and isinstance(e.func.value.value, str):
+            args = [field(a) for a in e.args]
+            return " ++ ".join(codes(v) if k == "lit" else args[v] for k, v in fmt_pieces(e, e.func.value.value, len(args))) or "[]"
+        fail(e, "heading element")
+    elems = [element(e) for e in h.value.elts]
+    if not (isinstance(first_line, ast.Call) and isinstance(first_line.func, ast.Attribute) and first_line.func.attr == "format"
+            and isinstance(first_line.func.value, ast.Constant) and isinstance(first_line.func.value.value, str)
+            and not first_line.keywords and [ast.unparse(a) for a in first_line.args] == ["*self.__headings()"]):
+        fail(first_line, "first line of __str__")
+    line = " ++ ".join(codes(v) if k == "lit" else "nth %d hs []" % v
+                       for k, v in fmt_pieces(first_line, first_line.func.value.value, len(elems))) or "[]"
+    params = "(mx : Z) (tz : option pystr) (pname : pystr) (njobs : Z)" if prefix == "thr" else "(tz : option pystr) (njobs : Z)"
+    args = "mx tz pname njobs" if prefix == "thr" else "tz njobs"
+    return ("(* Scheduler.__headings; [tz] = self.__tz_str, [njobs] = len of the job collection%s *)\n"
+            "Definition %s_headings %s : list pystr :=\n  [%s].\n"
+            "Definition %s_heading_line %s : pystr :=\n  let hs := %s_headings %s in\n  %s.\n"
+            % (", [pname] = the priority function's __name__ (or its type's) as CPython gives it" if prefix == "thr" else "",
+               prefix, params, ";\n   ".join(elems), prefix, params, prefix, args, line))
+
+
+class Holes2(ast.NodeTransformer):
+    def __init__(self):
+        self.value = None
+
+    def visit_Assign(self, node):
+        if len(node.targets) == 1 and isinstance(node.targets[0], ast.Name) and node.targets[0].id == "headings":
+            self.value = node.value
+            return ast.copy_location(ast.Assign(targets=node.targets, value=ast.Constant(value="HOLE")), node)
+        return node
